@@ -659,7 +659,13 @@ func (c *specCtx) binary(n *ast.BinaryExpr) (sv, error) {
 				return sv{}, c.errf("comparison of derived addresses is not supported")
 			}
 		case isString(t):
-			term = e.strEqTerm(a.S, b.S)
+			if cv, ok := e.sc.strConsts[b.S]; ok {
+				term = e.strEqConst(a.S, cv)
+			} else if cv, ok := e.sc.strConsts[a.S]; ok {
+				term = e.strEqConst(b.S, cv)
+			} else {
+				term = e.strEqTerm(a.S, b.S)
+			}
 		case isSliceT(t):
 			// only comparison with nil is meaningful
 			if b.S == e.sc.zero(t) {
